@@ -648,6 +648,8 @@ class BoboDistributedTCP(BoboDistributed,
                         "Message timeout ({} seconds)"
                         .format(elapse))
 
+                # Never wait for a silent client beyond the receive timeout
+                client_s.settimeout(self._timeout_receive - elapse)
                 bytes_msg = client_s.recv(self._recv_bytes)
                 all_bytes.extend(bytes_msg)
 
@@ -719,6 +721,13 @@ class BoboDistributedTCP(BoboDistributed,
                         device.clear_last()
 
                     break
+
+        except socket.timeout:
+            # From client_s.recv(): the client connected and went silent
+            raise BoboDistributedTimeoutError(
+                "Message timeout (no data for {} seconds)"
+                .format(self._timeout_receive))
+
         finally:
             client_s.close()
 
